@@ -111,7 +111,8 @@ fn names_from_set_expr<'a>(set_expr: &'a ast::SetExpr) -> Vec<&'a ast::ObjectNam
             .into_iter()
             .chain(names_from_set_expr(right.as_ref()))
             .collect(),
-        _ => todo!(),
+        // No name is looked up in the other kinds of query: their translation reports them as not supported
+        _ => vec![],
     }
 }
 
